@@ -236,15 +236,24 @@ func (e *pipeEnv) genScript(t string) {
 		origin := []string{"", "", "openconfig", "vendor"}[r.Intn(4)]
 		prefix := &pb.Path{Origin: origin, Elem: elems[:split]}
 		path := &pb.Path{Elem: elems[split:]}
-		if r.Intn(6) == 0 && split == 0 { // deprecated element encoding for unkeyed paths
+		if r.Intn(4) == 0 { // deprecated element encoding (unkeyed paths): prefix part, path part or both
 			plain := true
 			for _, pe := range elems {
 				plain = plain && len(pe.Key) == 0
 			}
 			if plain {
-				path = &pb.Path{}
-				for _, pe := range elems {
-					path.Element = append(path.Element, pe.Name)
+				names := func(es []*pb.PathElem) (out []string) {
+					for _, pe := range es {
+						out = append(out, pe.Name)
+					}
+					return
+				}
+				which := r.Intn(3)
+				if which != 1 && split < len(elems) {
+					path = &pb.Path{Element: names(elems[split:])}
+				}
+				if which != 0 && split > 0 {
+					prefix = &pb.Path{Origin: origin, Element: names(elems[:split])}
 				}
 			}
 		}
